@@ -322,6 +322,10 @@ def run_history(case, d, want_regen=True):
                 idxv = float(idx)
             elif op.get('nonint') == 'npint':
                 idxv = np.int64(idx)
+            elif op.get('nonint') == 'npint16':
+                idxv = np.int16(idx)
+            elif op.get('nonint') == 'npuint8':
+                idxv = np.uint8(idx)
             elif op.get('nonint') == 'str':
                 idxv = str(idx)
             else:
